@@ -234,6 +234,13 @@ def run_plain(case):
                     batch_size=b, drop_remainder=drop)
   else:
     view = ds.batch(fedjax.BatchHParams(batch_size=b, drop_remainder=drop))
+  if case.get('abandoned_first'):
+    # the view's first use is a pass that is given up after `abandoned_first`
+    # batches (a peek at the first batch, a consumer that raised)
+    it = iter(view)
+    for _ in range(case['abandoned_first']):
+      next(it, None)
+    del it
   batches = list(view)
   want_rows = (n // b) * b if drop else n
   want_batches = n // b if drop else -(-n // b)
@@ -288,6 +295,13 @@ def run_padded(case):
                            batch_size=b, num_batch_size_buckets=k)
   else:
     view = ds.padded_batch(fedjax.PaddedBatchHParams(batch_size=b, num_batch_size_buckets=k))
+  if case.get('abandoned_first'):
+    # the view's first use is a pass that is given up after `abandoned_first`
+    # batches (a peek at the first batch, a consumer that raised)
+    it = iter(view)
+    for _ in range(case['abandoned_first']):
+      next(it, None)
+    del it
   batches = list(view)
   require(len(batches) == -(-n // b), 'padded:batch_count',
           f'{len(batches)} vs {-(-n // b)}')
@@ -350,6 +364,8 @@ def case_strategy(draw, tier, padded):
     case['warm'] = True
   if draw(st.integers(0, 2)) == 0:
     case['layout'] = 'F'
+  if draw(st.integers(0, 3)) == 0:
+    case['abandoned_first'] = draw(st.sampled_from([1, 1, 2, 3]))
   if padded:
     case['buckets'] = draw(st.integers(1, 8))
   else:
@@ -373,6 +389,8 @@ def labels(case):
     ls.append('column_major_feature')
   if case.get('warm'):
     ls.append('preprocessor_used_before_append')
+  if case.get('abandoned_first'):
+    ls.append('first_pass_abandoned')
   ls.append('N=0' if n == 0 else ('B>N' if b > n else ('B|N' if n % b == 0 else 'B∤N')))
   if case.get('buckets', 1) > 1:
     ls.append('buckets>1')
